@@ -159,16 +159,18 @@ CLAIMED["C12"] = {
     "note": TRUST,
 }
 CLAIMED["C18"] = {
-    "technique": "exact interval evaluation over the AST with reaching definitions, branch refinement (including rejection-loop exit conditions), loop-carried fixpoints, endpoint attainability tests; effect analysis for generator isolation",
+    "technique": "exact interval evaluation over the AST with reaching definitions, branch refinement (including rejection-loop exit conditions), loop-carried fixpoints, endpoint attainability tests; evaluation of two return expressions in IEEE double arithmetic at the extreme draws; effect analysis for generator isolation",
     "text": ("Decided on every run, for ALL generator states (the raw output ranges over [0, 2^64-1]): Random() returns 0.0 for the zero draw and "
              "otherwise assembles a bit pattern whose biased exponent is within 959..1022 and whose mantissa stays below 2^52, i.e. a value in "
              "(0,1); every shift amount in the library is below its operand width; floating divisors exclude 0, log arguments are strictly "
              "positive and sqrt arguments non-negative wherever the operands derive from the generator only (Normal, Gamma's small-ia branch, "
              "Gamma's v2/v1, Poisson), a violating endpoint being reported only when every test on the way admits it; Poisson() is finite and "
-             ">= 0; RandomRange stays in [min,max] on representative argument pairs; the library writes only locals and the calling LP's "
+             ">= 0; RandomRange stays in [min,max] on representative argument pairs, both by the interval argument and evaluated in IEEE double "
+             "arithmetic at the two extreme draws of Random(); a double is converted to an integer only behind an upper-bound test of it or when "
+             "its value at the extreme draws (sampled arguments) is in the type's range; the library writes only locals and the calling LP's "
              "generator, has no static or file-scope mutable state, and draws only through RandomU64(). Operands that depend on caller-supplied "
              "arguments (Zipf, Gamma's large-ia rejection loop) are listed inconclusive. NOT decided: distribution quality and argument domains."),
-    "note": TRUST + " Doubles are treated as reals: rounding and underflow are ignored.",
+    "note": TRUST + " In the interval argument doubles are treated as reals (rounding and underflow ignored); only the two double-arithmetic evaluations named above look at rounding.",
 }
 
 CLAIMED["C08"] = {
